@@ -122,7 +122,35 @@ func barrierWF(c *Case) *WF {
 
 var profC07 = Profile{
 	MaxProcs: 4, MaxItems: 5, Bufsizes: []int{0, 1, 2}, MaxSlots: 6,
-	MultiOut: true, FanIn: true, FanOut: true, Cores: true, TwoSources: true, Zip: true,
+	MultiOut: true, FanIn: true, FanOut: true, Cores: true, TwoSources: true, Zip: true, Sinkless: true,
+}
+
+// staggeredWF: one process, n one-core tasks, two of which (the first and a
+// later one, further apart than slots allow at once) rendezvous: as soon as
+// the tasks in between have released their slots the later one fits next to
+// the first and must be started - completion is impossible otherwise.
+func staggeredWF(c *Case) *WF {
+	t := c.Tape
+	w := &WF{Name: "wf", Sources: map[string]string{}}
+	slots := 2 + t.Choose(simrt.StGen, 4, 0)
+	n := slots + 1 + t.Choose(simrt.StGen, 4, 0)
+	src := srcNode(w, "src0", n, "")
+	partner := slots + t.Choose(simrt.StGen, n-slots, 0)
+	var grp []string
+	for i := 0; i < n; i++ {
+		if i == 0 || i == partner {
+			grp = append(grp, "g1")
+		} else {
+			grp = append(grp, fmt.Sprintf("u%d", i))
+		}
+	}
+	addNode(w, Node{Name: "p0", Kind: KProc, Cores: 1, BGroup: "grp",
+		Ins:    []InSpec{{Name: "a", From: []Edge{{src, "out"}}}},
+		Params: []ParamSpec{{Name: "grp", Vals: grp}},
+		Outs:   []OutSpec{{Name: "o0", Pattern: "{i:a}.p0.o0"}}})
+	w.MaxTasks = slots
+	w.Bufsize = []int{0, 1, 2}[t.Choose(simrt.StGen, 3, 0)]
+	return w
 }
 
 func init() {
@@ -133,6 +161,9 @@ func init() {
 			switch kind {
 			case 0:
 				w := barrierWF(c)
+				if c.Tape.Choose(simrt.StGen, 3, 0) == 1 {
+					w = staggeredWF(c)
+				}
 				c.Sample = "barrier: " + sample(w)
 				ex := Eval(w)
 				inc := RunInc(w, c.Tape, nil, 0, IncOpts{KillAt: -1, Strategy: strategyOf(c.Tape), Trace: c.Trace, OnStep: slotInvariant(w, c)})
@@ -168,7 +199,7 @@ func init() {
 				if inc.Sim.End == simrt.EndDeadlock {
 					d := inc.Sim.DeadlockString()
 					// only a deadlock in which a task waits for slots (token channel / acquisition lock) is this property's
-					if strings.Contains(d, "(chan struct {})") || strings.Contains(d, "mutex") {
+					if strings.Contains(d, "chan struct {}") || strings.Contains(d, "chan<- struct {}") || strings.Contains(d, "mutex") {
 						return Viol("slot-deadlock", deadlockSig(inc), "tasks waiting for slots block each other forever: %s", endDesc(inc))
 					}
 					return Skipped(Viol("deadlock", "", "%s", endDesc(inc)))
